@@ -16,7 +16,11 @@ def link(rng, lc=None, kind=None):
         r = rng.random()
         lc = rng.choice([0, 0, 0, 1, 2, 3]) if r < 0.8 else rng.choice(LC_EDGE) if r < 0.97 else rng.randrange(0, 2**64)
     lcs = "x" if (lc == 0 and rng.random() < 0.5) else str(lc)
-    kind = kind or rng.choice("iiiilm")
+    kind = kind or rng.choice("iiiilmM")
+    if kind == "M":
+        n = rng.choice([1, 5, 30, 253, 254, 255, 256, 300]) if rng.random() < 0.6 else rng.randrange(1, 400)
+        cid = bytes(rng.choice(b"abcdefghijklmnopqrstuvwxyz0123456789") for _ in range(n - 1)) + b"\x00"
+        return "%s:%s:M:%s" % (d, lcs, G.hx(cid))
     if kind == "i":
         return "%s:%s:i:%s" % (d, lcs, G.hx(G.imprint(rng)))
     if kind == "l":
